@@ -131,6 +131,34 @@ fn play<B: FA, E: FieldElement<BaseField = B>>(c: &CandCase, deg: usize, obs: &m
         bytes
     );
     ensure!(e == from_el::<E>(&want_el) && e + E::ZERO == e, "scripted/not-the-canonical-element", "{name}: drawn element is not equal to the element built from its residues {want:?}");
+    // proof-of-work measure of a chosen digest: the number of trailing zero bits of its first eight bytes read
+    // little-endian (as implemented and as used by prover and verifier alike), for every count 0..=64
+    {
+        let z = (c.filler as u32 * 7 + c.cands.len() as u32) % 66;
+        let noise = c.cands[0][0].1 .0 as u64;
+        let head: u64 = match z {
+            64.. => 0,
+            63 => 1u64 << 63,
+            _ => (1u64 << z) | (noise << (z + 1)),
+        };
+        let mut d = [c.filler; 32];
+        d[..8].copy_from_slice(&head.to_le_bytes());
+        SCRIPT.with(|s| *s.borrow_mut() = VecDeque::from(vec![d]));
+        let m = catch(|| coin.check_leading_zeros(noise)).map_err(|p| Fail::new(format!("scripted/pow/{}", p.key()), p.msg.clone()))?;
+        SCRIPT.with(|s| s.borrow_mut().clear());
+        obs.label(match head.trailing_zeros() {
+            0..=31 => "pow-zeros<32",
+            32 => "pow-zeros=32",
+            33..=63 => "pow-zeros=33..63",
+            _ => "pow-zeros=64",
+        });
+        ensure!(
+            m == head.trailing_zeros(),
+            "scripted/pow-measure",
+            "{name}: proof-of-work measure {m} for a digest whose first eight bytes (little-endian) have {} trailing zero bits",
+            head.trailing_zeros()
+        );
+    }
     let used = total - left;
     ensure!(
         if idx < total { used == idx + 1 } else { left == 0 },
@@ -149,10 +177,10 @@ impl<B: FA> SubCheck for Scripted<B> {
         tier.pick(200_000, 4_000_000)
     }
     fn rule(&self) -> String {
-        "DefaultRandomCoin over a scripted hasher: 1..6 candidate digests whose coefficient chunks are drawn from {0, 1, p-1, p, p+1, 2p-1, 2p, 2^bits-1, top of the byte range, random >= p, random < p}; base, quadratic and cubic draws; oracle = first candidate with every coefficient below p, canonical, nothing consumed after it; non-trivial = at least one candidate had to be rejected".into()
+        "DefaultRandomCoin over a scripted hasher: 1..6 candidate digests whose coefficient chunks are drawn from {0, 1, p-1, p, p+1, 2p-1, 2p, 2^bits-1, top of the byte range, random >= p, random < p}; base, quadratic and cubic draws; oracle = first candidate with every coefficient below p, canonical, nothing consumed after it; plus the proof-of-work measure of a scripted digest with 0..64 trailing zero bits in its first eight bytes; non-trivial = at least one candidate had to be rejected".into()
     }
     fn required_labels(&self, _t: Tier) -> Vec<String> {
-        ["candidate=p", "candidate=p+1", "candidate=p-1", "candidate=top-of-byte-range", "rejected-before-accept=0", "rejected-before-accept=2"].iter().map(|s| s.to_string()).collect()
+        ["candidate=p", "candidate=p+1", "candidate=p-1", "candidate=top-of-byte-range", "rejected-before-accept=0", "rejected-before-accept=2", "pow-zeros<32", "pow-zeros=32", "pow-zeros=33..63", "pow-zeros=64"].iter().map(|s| s.to_string()).collect()
     }
     fn strategy(&self, _tier: Tier) -> BoxedStrategy<CandCase> {
         let coef = (0u8..12, any::<u128>().prop_map(X));
